@@ -27,7 +27,7 @@ func VerifC06SortByPower() {
 		powers[i] = verifrt.I64(string(rune('a'+i)) + "_power")
 	}
 	oa, ok, op := SortByPower(addrs, keys, powers)
-	verifrt.Assert(len(oa) == n && len(ok) == n && len(op) == n, "lengths preserved")
+	verifrt.Assert(verifrt.All(len(oa) == n, len(ok) == n, len(op) == n), "lengths preserved")
 	// permutation: every input pair appears exactly once
 	for i := 0; i < n; i++ {
 		cnt := 0
@@ -39,6 +39,6 @@ func VerifC06SortByPower() {
 		verifrt.Assert(cnt == 1, "output is a permutation of the input (address,power) pairs")
 	}
 	for j := 0; j+1 < n; j++ {
-		verifrt.Assert(op[j] > op[j+1] || (op[j] == op[j+1] && bytes.Compare(oa[j], oa[j+1]) < 0), "ordered by power descending, ties by address ascending")
+		verifrt.Assert(verifrt.Any(op[j] > op[j+1], verifrt.All(op[j] == op[j+1], bytes.Compare(oa[j], oa[j+1]) < 0)), "ordered by power descending, ties by address ascending")
 	}
 }
